@@ -85,6 +85,7 @@ static int cfg_nopwait2, cfg_notimerfd, cfg_noppoll, cfg_noeventfd2, cfg_noevent
 static int eintr_at[64], neintr;	/* wait-call indices (1-based, counting every call) that return EINTR */
 static int fail_eventfd_errno;		/* eventfd syscalls fail with this errno (e.g. EMFILE) */
 static int fail_pipe;
+static int cfg_noepoll;
 
 /* ------------------------------------------------------------------ kernel interest mirror (epoll) */
 #define MAXFD 4096
@@ -556,9 +557,15 @@ long __wrap_syscall(long nr, long a, long b, long c, long d, long e, long f)
 		if (nr == __NR_eventfd && cfg_noeventfd) { errno = ENOSYS; return -1; }
 	}
 #ifdef __NR_epoll_create1
-	if (nr == __NR_epoll_create1 && cfg_noepollcreate1) { errno = ENOSYS; return -1; }
+	if (nr == __NR_epoll_create1 && (cfg_noepollcreate1 || cfg_noepoll)) { errno = ENOSYS; return -1; }
 #endif
 	return syscall(nr, a, b, c, d, e, f);
+}
+
+int __wrap_epoll_create(int size)
+{
+	if (cfg_noepoll) { errno = ENOSYS; return -1; }
+	return epoll_create(size);
 }
 
 int __wrap_pipe(int fd[2])
@@ -931,6 +938,7 @@ int main(int argc, char **argv)
 				else if (!strcmp(c, "noeventfd2")) cfg_noeventfd2 = 1;
 				else if (!strcmp(c, "noeventfd")) cfg_noeventfd = 1;
 				else if (!strcmp(c, "noepollcreate1")) cfg_noepollcreate1 = 1;
+				else if (!strcmp(c, "noepoll")) cfg_noepoll = 1;
 				else if (!strcmp(c, "eventfd-emfile")) fail_eventfd_errno = EMFILE;
 				else if (!strcmp(c, "pipe-emfile")) fail_pipe = 1;
 				else if (!strncmp(c, "eintr=", 6)) { if (neintr < 64) eintr_at[neintr++] = atoi(c + 6); }
